@@ -70,6 +70,10 @@ def gen_cases(tier, seed, ctx):
         filler = bytes(rnd.choice(b'abcdefghij \n') for _ in range(2 * blk + 777))
         sc.append(filler[:o] + SPLIT + filler[o:o + 900] + SPLIT[:4] + b'y' + SPLIT + filler[:50] + SPLIT[:rnd.randrange(0, 6)])
     sc.append(b'<<text:<te<text:' * 2500)
+    for k in range(2, len(SPLIT)):
+        for j in range(1, k):
+            filler = bytes(rnd.choice(b'abcdefghij \n') for _ in range(2 * blk))
+            sc.append(filler[:blk - j] + SPLIT[:k] + b'!' + filler[:500] + SPLIT + filler[:30])
     sc.append(SPLIT); sc.append(SPLIT[:3]); sc.append(b'')
     for i, data in enumerate(sc):
         for manual in (1, 0):
@@ -124,6 +128,14 @@ def tool_cases(tier, seed, work, tdir):
             data = bytes(rnd.choice(b'abc') for _ in range(pre)) + SPLIT[:k]
             res.append(run_one('suffix-prefix%d@%d' % (k, pre), data, ['-s', SPLIT.decode(), '-m']))
     res.append(run_one('double', b'<<text:<te<text:' * 3000, ['-s', SPLIT.decode(), '-m']))
+    # a FALSE start of the split string straddling a block edge: j matching bytes before the edge, k-j after, then a mismatch
+    for k in range(2, len(SPLIT)):
+        for j in range(1, k):
+            for edge in (blk, 2 * blk):
+                filler = bytes(rnd.choice(b'abcdefghij \n') for _ in range(3 * blk))
+                data = filler[:edge - j] + SPLIT[:k] + b'!' + filler[:700] + SPLIT + filler[:40]
+                res.append(run_one('false-start%d/%d@%d' % (j, k, edge), data, ['-s', SPLIT.decode(), '-m']))
+                res.append(run_one('false-start%d/%d@%d' % (j, k, edge), data, ['-s', SPLIT.decode()]))
     # option combinations
     data = FG.text(rnd, 100000)
     for zargs in ([], ['-m'], ['--compression-format', 'none'], ['-u'], ['-u', '--chunk-hash-type', 'sha256'], ['-m', '-s', 'zchunk'],
